@@ -26,7 +26,8 @@ func init() {
 			"X4 (cases >= 2000000) ambiguous failures: each call of the rotation that changes something (key creation, signing, certificate object write, manifest write, CA finalize, old-key destruction) takes effect and THEN reports an error of a drawn class, the process living on, under the flag combinations and serial modes from both pre-states; " +
 			"X5 rotations failing by refusal: the authority already holds a certificate under the key version name the new key gets (a spare certified through the authority's mutation interface with its own or with the rotation's subject; an earlier generation's certificate after bootstrap --overwrite), rotation run fault-free under every flag combination and with single faults of the four kinds at drawn call kinds; " +
 			"X6 a crash between the open and the commit of the NEW certificate object's writer while the store writes a not-yet-existing object through as the calls arrive; " +
-			"distinct = (family, assembly, pre-state, first faulted call, fault kind, error class, flags, outcome)",
+			"X7 (cases >= 3000000) several rotations by ONE process that keeps ONE key manager value (and signer) from rotation to rotation: a chain of 2..3 rotations, each with its own fault (call kind, the four fault kinds, error class, flags, serial mode), the first one's enumerated over the ways a rotation ends around the record of its key (old-key destruction refused / lost, record applied but reported failed, no fault, failure before the record), no restore in between, a crash ending the process; every rule applied after every rotation of the chain, plus: the same process can still endorse; " +
+			"distinct = (family, assembly, pre-state, [what the process's previous rotation did,] first faulted call, fault kind, error class, flags, outcome)",
 		Assumptions: []string{"crashes happen at call boundaries of the repository's own interfaces (object granularity), not inside a write",
 			"for in-memory components a crash means the operation was cut short while the process state survives",
 			"gcpkms is exercised against the KMS model by C20; here the four nonprod managers/authorities (and gcsca over memory and disk) are used",
@@ -35,8 +36,9 @@ func init() {
 			"not judged (counted, see judgeSharedCertObject): a rotation with --overwrite whose serial override equals the recorded primary's own subject serial, i.e. whose certificate object IS the recorded primary's certificate object",
 			"an applied-but-failed call (X4) is produced only at calls whose effect the component applies in one piece; the component's state after it is that of a successful call",
 			"X6 writes through only objects that do not exist at the writer's open; an existing object (manifest, root, a replaced certificate) is always replaced as a whole",
+			"X7: a crash ends the process and with it the key manager value it kept (the in-memory key set of memkm survives, as in the other families); explicit far serial overrides of one chain are distinct",
 			"not judged (counted): whether a rotation WITHOUT --overwrite over an occupied name is refused or goes through (X5) - only the state it leaves is judged; a pre-state that cannot be set up is counted, not judged"},
-		ShardsQuick: 10, ShardsThor: 16, TimeoutS: 1800, TimeoutThor: 7200, Exhaustive: true, Run: run,
+		ShardsQuick: 10, ShardsThor: 16, TimeoutS: 5400, TimeoutThor: 10800, Exhaustive: true, Run: run,
 	})
 }
 
@@ -93,6 +95,10 @@ func run(c *core.Ctx) {
 	reached := 0
 	xst := newExtStats()
 	yst := &ext2Stats{}
+	zst := &ext3Stats{}
+	// development aid: VERIF_C10_ONLY=X7 runs the X7 family alone; the floors of everything skipped then fail, so such a
+	// run can report violations but never a pass
+	onlyX7 := os.Getenv("VERIF_C10_ONLY") == "X7"
 	// every storage-backed authority is also exercised as ONE long-lived value kept across the failed rotation,
 	// the probe and the recovery rotation (a service using the library), not only reloaded per command like the CLI
 	type asm struct {
@@ -195,7 +201,7 @@ func run(c *core.Ctx) {
 		}
 		for k, fc := range cases {
 			idx := base + 1 + k
-			if !c.Mine(idx) {
+			if !c.Mine(idx) || onlyX7 {
 				continue
 			}
 			gname := aname + " " + fc.desc
@@ -307,12 +313,17 @@ func run(c *core.Ctx) {
 		}
 		// appended families (case numbers >= extBase): flags, error classes, outages, context end, pairs across attempts
 		a.LongLived = false
-		extended(c, ai, a, aname, p0.long, snapBoot, snap, t0, xst)
-		// appended families (case numbers >= ext2Base): applied-but-failed calls, refusals over occupied names
-		extended2(c, ai, a, aname, p0.long, snapBoot, snap, t0, yst)
+		if !onlyX7 {
+			extended(c, ai, a, aname, p0.long, snapBoot, snap, t0, xst)
+			// appended families (case numbers >= ext2Base): applied-but-failed calls, refusals over occupied names
+			extended2(c, ai, a, aname, p0.long, snapBoot, snap, t0, yst)
+		}
+		// appended family (case numbers >= ext3Base): several rotations by one process keeping one key manager value
+		extended3(c, ai, a, aname, p0.long, snapBoot, snap, t0, zst)
 		os.RemoveAll(dir)
 	}
 	c.Floor("some-fault-position-reached", reached > 0)
 	xst.floors(c)
 	yst.floors(c)
+	zst.floors(c)
 }
